@@ -279,3 +279,34 @@ def core_checked(bindir, wss, fails, stats=None):
                       "bridge": str(b.get(what) if isinstance(b, dict) else b)[:400]})
         out.append(b if not b.get("panic") else h)
     return out
+
+
+# ---------------------------------------------------------------------------------------------------------
+# translator tie of the hand model of the indexer (group lines): tools/translate/t_indexer.py regenerates coq/gen/GenIndexer.v
+# from the CURRENT index/scope.rs, index/context.rs, index.rs; props/IndexerSource.v states that each rendered function is the
+# hand model's (proofs/GenIndexerEq.v).  PARTIAL: the statement lists exactly the covered functions.
+INDEXER_TRANSLATORS = ["t_indexer"]
+INDEXER_SOURCE_THEOREMS = ["Indexer_model_is_source_partial"]
+INDEXER_SOURCE_TRUSTED = (
+    "the hand model coq/model/{Scope,Indexer}.v is ALSO tied to its source by translation + proof for the functions listed in "
+    "props/IndexerSource.v Indexer_model_is_source_partial (t_indexer -> coq/gen/GenIndexer.v rendered on every run from the current "
+    "index/scope.rs, index/context.rs and index.rs; proofs/GenIndexerEq.v; design/notes-translator-indexer.md: all of scope.rs, "
+    "context.rs but new/finish, 21 of the 39 impls of index.rs; NOT bang_operator.rs, values, template arguments, parent lists, "
+    "field definitions - those stay tied by the correspondence run only); trusted there: the translator t_indexer and "
+    "coq/model/IndexerSrc.v")
+
+
+def source_tie(ctx, fails):
+    """obligation shared by C05 / C13: Indexer_model_is_source_partial for the CURRENT source text (the translator t_indexer
+    must be among the translators of the check's proof_step, which runs before this)"""
+    r = vlib.prove("TG.Props.IndexerSource", INDEXER_SOURCE_THEOREMS, ["props/IndexerSource.vo"])
+    fails += r["failures"]
+    ctx.cov["obligations"] = ctx.cov.get("obligations", 0) + r["obligations"]
+    ctx.cov["discharged"] = ctx.cov.get("discharged", 0) + r["discharged"]
+    ctx.cov["theorems"] = list(ctx.cov.get("theorems", [])) + ["IndexerSource." + t for t in INDEXER_SOURCE_THEOREMS]
+    apt = dict(ctx.cov.get("axioms_per_theorem", {}))
+    apt.update({"IndexerSource." + k: v for k, v in r["assumptions"].items()})
+    ctx.cov["axioms_per_theorem"] = apt
+    ctx.cov["trusted_base"] = list(ctx.cov.get("trusted_base", [])) + [INDEXER_SOURCE_TRUSTED]
+    ctx.cov["coq_wall_s"] = round(ctx.cov.get("coq_wall_s", 0) + r["wall_s"], 2)
+    return r
